@@ -300,6 +300,7 @@ func (x *Exec) unknownCall(cfg *Config, f *Frame, tg target, args []Val, dest ss
 			return nil, false
 		}
 	}
+	x.callOrderChecks(cfg, tg, pos)
 	x.traceCall(cfg, tg, args)
 	if x.c != nil && x.c.Options["callbacks-may-panic"] == "true" {
 		pcfg := cfg.clone()
@@ -406,6 +407,9 @@ func (x *Exec) doReturn(cfg *Config, f *Frame, res []Val) (end bool) {
 	}
 	cfg.frames = cfg.frames[:len(cfg.frames)-1]
 	popLoopsOf(cfg, f.depth)
+	if f.onReturn != nil {
+		f.onReturn(cfg)
+	}
 	caller := cfg.top()
 	if f.watcher != nil {
 		x.nextWatcher(cfg, f.depth-1)
@@ -470,6 +474,9 @@ func (x *Exec) unwindStep(cfg *Config, f *Frame) bool {
 	}
 	cfg.frames = cfg.frames[:len(cfg.frames)-1]
 	popLoopsOf(cfg, f.depth)
+	if f.onReturn != nil {
+		f.onReturn(cfg)
+	}
 	caller := cfg.top()
 	caller.unwinding = true
 	return false
@@ -675,4 +682,50 @@ func (x *Exec) checkCallbackArgs(cfg *Config, env *SpecEnv, fn *ssa.Function, c 
 			x.oblige(cfg, "callback-binding", what+": captured "+g, Eq(got.T, want.T), nil, pos)
 		}
 	}
+}
+
+
+// callOrderChecks: contract options about calls of unknown function values.
+//   option calls-under f m [; g m2]   every call of f is made while held(m)
+//   option calls-after  f g [; ...]    every call of f is made after g was called
+//                                      (calls(g) > old(calls(g)))
+//   option calls-once f [; g]          f is called at most once per invocation
+//                                      (calls(f) == old(calls(f)) at each call)
+func (x *Exec) callOrderChecks(cfg *Config, tg target, pos token.Pos) {
+	if x.c == nil || tg.unknown == nil || len(cfg.frames) == 0 {
+		return
+	}
+	env := x.entryEnv(cfg)
+	env.frame = cfg.frames[0]
+	env.old = cfg.old
+	each := func(opt string, fn func(fs []string)) {
+		for _, part := range strings.Split(x.c.Options[opt], ";") {
+			fs := strings.Fields(part)
+			if len(fs) > 0 && fs[0] == tg.name {
+				fn(fs)
+			}
+		}
+	}
+	parse := func(src string) Expr {
+		e, err := ParseExpr(src)
+		if err != nil {
+			unsupported("contract option: %v", err)
+		}
+		return e
+	}
+	each("calls-under", func(fs []string) {
+		if len(fs) < 2 {
+			return
+		}
+		x.oblige(cfg, "call-under-lock", tg.name+" called while held("+fs[1]+")", x.specBool(env, parse("held("+fs[1]+")")), nil, pos)
+	})
+	each("calls-after", func(fs []string) {
+		if len(fs) < 2 {
+			return
+		}
+		x.oblige(cfg, "call-order", tg.name+" called after "+fs[1], x.specBool(env, parse("calls("+fs[1]+") > old(calls("+fs[1]+"))")), nil, pos)
+	})
+	each("calls-once", func(fs []string) {
+		x.oblige(cfg, "call-once", tg.name+" not called before in this invocation", x.specBool(env, parse("calls("+fs[0]+") == old(calls("+fs[0]+"))")), nil, pos)
+	})
 }
